@@ -231,3 +231,7 @@ mod test {
         assert_eq!(do_evaluate(&[], b"rgb(-3, -2%, 0);"), "rgb(0, 0, 0)");
     }
 }
+
+#[cfg(kani)]
+#[path = "/verif/kani/colorfns_rgb.rs"]
+mod kani_verif;
